@@ -334,20 +334,36 @@ def h_coupled_levels(ctx, n, coef, levels):
 
 
 def replay_df(sc):
-    tenors = [1.0, 2.0, 3.0]
-    x0 = np.array([0.02, 0.03])
-    sigma = np.array([[0.1], [0.1]])
+    """real rate models on the solver's own curve (tenors, rates, times) and on a fixed non-flat one: df(0)=1, positive, non-increasing,
+    value at each tenor = product of the accruals of the elapsed periods"""
     out = []
-    for cls, kw in ((LFM.LevyForwardModel, "ois_rates"), (LLM.LevyLiborModel, "libor_rates")):
-        mdl = cls(**{kw: x0}, tenors=tenors, sigma=sigma, driver=StubDriver(1))
-        ts = [0.0, 0.5, 1.0, 1.0001, 1.5, 2.0, 2.0001, 2.5, 3.0]
-        dfs = [float(mdl.df(t)) for t in ts]
-        for (t1, d1), (t2, d2) in zip(zip(ts, dfs), zip(ts[1:], dfs[1:])):
-            if d2 > d1 + 1e-12:
-                out.append(f"{cls.__name__}: df({t1})={d1:.6f} < df({t2})={d2:.6f}")
-        if abs(dfs[0] - 1) > 1e-12:
-            out.append(f"{cls.__name__}: df(0) = {dfs[0]}")
-    return bool(out), "; ".join(out[:3]) if out else "df non-increasing on the test curve"
+    curves = [([1.0, 2.0, 3.5], [0.02, 0.035], [0.0, 0.5, 1.0, 1.0001, 1.5, 2.0, 2.0001, 2.5, 3.5])]
+    if sc.get("tenors"):
+        ten, rates = [float(x) for x in sc["tenors"]], [float(x) for x in sc["rates"]]
+        ts = sorted(set([0.0] + [float(x) for x in sc.get("times", [])] + ten + [t + 1e-9 * max(1.0, t) for t in ten[:-1]]))
+        curves.insert(0, (ten, rates, [t for t in ts if t <= ten[-1]]))
+    which = sc.get("which")
+    for tenors, rates, ts in curves:
+        for cls, kw, name in ((LFM.LevyForwardModel, "ois_rates", "forward"), (LLM.LevyLiborModel, "libor_rates", "libor")):
+            if which and name != which:
+                continue
+            m = len(rates)
+            mdl = cls(**{kw: np.array(rates)}, tenors=list(tenors), sigma=np.array([[0.1]] * m), driver=StubDriver(1))
+            dfs = [float(mdl.df(t)) for t in ts]
+            for (t1, d1), (t2, d2) in zip(zip(ts, dfs), zip(ts[1:], dfs[1:])):
+                if d2 > d1 * (1 + 1e-9):
+                    out.append(f"{cls.__name__}(tenors={tenors}, rates={rates}): df({t1})={d1:.8f} < df({t2})={d2:.8f}")
+            if abs(dfs[0] - 1) > 1e-12 or min(dfs) <= 0:
+                out.append(f"{cls.__name__}: df(0) = {dfs[0]}, min df = {min(dfs)}")
+            # value at the tenors against the product of the elapsed accruals (period j has rate rates[j], the stub period [0, T0] rate rates[0])
+            for k in range(m):
+                want = 1 + rates[0] * tenors[0]
+                for j in range(k):
+                    want *= 1 + rates[j] * (tenors[j + 1] - tenors[j])
+                got = 1 / float(mdl.df(tenors[k]))
+                if abs(got - want) > 1e-9 * want:
+                    out.append(f"{cls.__name__}(tenors={tenors}, rates={rates}): 1/df(T_{k}) = {got!r}, product of the period accruals {want!r}")
+    return bool(out), "; ".join(out[:3]) if out else "df well behaved on the curves"
 
 
 def make_rate_model(ctx, cls, m):
@@ -369,8 +385,8 @@ def make_rate_model(ctx, cls, m):
 def h_df_rates(ctx, which, m):
     cls = LFM.LevyForwardModel if which == "forward" else LLM.LevyLiborModel
     mdl, tenors, x0 = make_rate_model(ctx, cls, m)
-    rp = (replay_df, lambda mm: {})
     t1, t2 = ctx.real("t1", 0), ctx.real("t2", 0)
+    rp = (replay_df, lambda mm: {"which": which, "tenors": [mm.f(T) for T in tenors], "rates": [mm.f(r) for r in x0], "times": [mm.f(t1), mm.f(t2)]})
     ctx.assume(AND(t1 < t2, t2 <= tenors[m]))
     d1, d2 = mdl.df(t1), mdl.df(t2)
     info = {"model": which, "m": m}
